@@ -592,10 +592,11 @@ theorem sub_pass (mul : Option Nat) (hm : mulOf mul < B64) {x y : Limbs} (hl : x
     omega
   rw [hk] at e1; omega
 
-/-- **`large_quorem`**: for a divisor whose top limb is at least `2^57` (and not all ones) the single-limb quotient
-estimate `x_top / (y_top + 1)` is the true quotient or one less, and the one correction step makes it exact -/
+/-- **`large_quorem`**: for a numerator below `K` times the divisor, whose top limb exceeds `K` (and is not all ones), the
+single-limb quotient estimate `x_top / (y_top + 1)` is the true quotient or one less, and the one correction step makes it exact -/
 theorem largeQuoremL_spec {x ys : Limbs} {yn1 : Nat} (hx : Normalized x) (hy : Normalized (ys ++ [yn1]))
-    (hlen : x.length ≤ ys.length + 1) (hy57 : 2 ^ 57 ≤ yn1) (hyB : yn1 + 1 < B64) :
+    (hlen : x.length ≤ ys.length + 1) (K : Nat) (hxK : valL x < K * valL (ys ++ [yn1])) (hyK : K + 1 ≤ yn1)
+    (hyB : yn1 + 1 < B64) :
     ∃ R, largeQuoremL x (ys ++ [yn1]) = some (valL x / valL (ys ++ [yn1]), R) ∧ Normalized R ∧
       valL R = valL x % valL (ys ++ [yn1]) := by
   have hyne : ys ++ [yn1] ≠ [] := by simp
@@ -639,7 +640,6 @@ theorem largeQuoremL_spec {x ys : Limbs} {yn1 : Nat} (hx : Normalized x) (hy : N
     have hqB : q < B64 := by
       have : q * 1 ≤ q * (yn1 + 1) := Nat.mul_le_mul_left _ (by omega)
       omega
-    have hq7 : q + 1 ≤ yn1 := q_small q yn1 xm1 hqd hxm hy57
     generalize hX : valL (xs ++ [xm1]) = X at *
     generalize hY : valL (ys ++ [yn1]) = Y at *
     -- `q·Y ≤ X < (q+2)·Y`
@@ -647,6 +647,13 @@ theorem largeQuoremL_spec {x ys : Limbs} {yn1 : Nat} (hx : Normalized x) (hy : N
       have h1 : q * Y ≤ q * (Bn * (yn1 + 1)) := Nat.mul_le_mul_left _ (by rw [hYv, Nat.mul_add, Nat.mul_one]; omega)
       have h2 : q * (Bn * (yn1 + 1)) = Bn * (q * (yn1 + 1)) := by ring
       have h3 : Bn * (q * (yn1 + 1)) ≤ Bn * xm1 := Nat.mul_le_mul_left _ hqd
+      omega
+    have hq7 : q + 1 ≤ yn1 := by
+      have hYpos : 0 < Y := by
+        have : 0 < Bn * yn1 := Nat.mul_pos hBnpos (by omega)
+        rw [hYv]; omega
+      have : q * Y < K * Y := by omega
+      have := Nat.lt_of_mul_lt_mul_right this
       omega
     have hX2 : X < (q + 2) * Y := by
       have h1 : X < Bn * (xm1 + 1) := by rw [hXv, Nat.mul_add, Nat.mul_one]; omega
